@@ -404,6 +404,40 @@ func runC15(c *Ctx, wi int, seed uint64) {
 				submitAndJudge(c, w, nd, s, wit)
 				c.Distinct(ty + "|" + s.Label)
 			}
+			// the board refuses one message of the result (too large for it, or an outage that begins in the
+			// middle of the result): the submission fails as a whole - nothing of the result is on the board, the
+			// operation is still pending - and the genuine submission below must then post everything once
+			if nm := len(res.ResultMsgs); nm > 0 {
+				ks := []int{nm - 1}
+				if nm > 2 {
+					ks = append(ks, 1)
+				}
+				if nm > 1 && r.Intn(2) == 0 {
+					ks = append(ks, 0)
+				}
+				for _, k := range ks {
+					target := res.ResultMsgs[k]
+					nd.NB.FailSendIf = func(msgs []storage.Message) error {
+						for _, m := range msgs {
+							if m.RecipientAddr == target.RecipientAddr && m.Event == target.Event && string(m.Data) == string(target.Data) {
+								return fmt.Errorf("board: message refused (injected)")
+							}
+						}
+						return nil
+					}
+					lbl := "board-refuses-one-message-of-the-result"
+					if nm > 1 {
+						lbl = fmt.Sprintf("board-refuses-message-%d-of-%d", k+1, nm)
+						if nm > 3 {
+							lbl = "board-refuses-a-later-message-of-many"
+						}
+					}
+					submitAndJudge(c, w, nd, c15Sub{Label: lbl, Op: cloneOp(res), Expect: "reject"}, wit)
+					nd.NB.FailSendIf = nil
+					c.Distinct(ty + "|" + lbl)
+					c.Add("submissions_with_the_board_refusing_one_message", 1)
+				}
+			}
 			// unchecked fields may change (the node cannot know better); still exactly-once
 			genuine := cloneOp(res)
 			label := "genuine"
